@@ -1779,6 +1779,43 @@ def rule_moment_pipeline(ctx, prog, rule="R19"):
         unrec(ctx, rule, "moments/raw-moments", mo.where(), ex)
 
 
+def rule_moment_shift(ctx, prog, rule="R19"):
+    """the raw moments are taken of the data *shifted by its mean* (first pass of the two-pass algorithm): the binomial
+    correction is an identity for any shift, so un-shifted data would still be exact in exact arithmetic – and lose every digit to
+    cancellation for data with |mean| ≫ spread.  Necessary for the forward-error clause of C07."""
+    from .facts import inline_calls
+    keep = ("moments", "central_moment_coefficients", "horner_method")
+    filt = lambda cb: cb.key not in prog.exported and len(cb.blocks) <= 60 and cb.name not in keep and not cb.raw.get("unsafe_fn")
+    for name in ("central_moment", "central_moments"):
+        root = prog.method("SummaryStatisticsExt", name)
+        b = prog.tracked(inline_calls(prog, root, filt))
+        sites = [(bb, t) for bb, t in b.calls() if callee_name(t) == "moments" and (t["callee"].get("path") or "").startswith("summary_statistics::")]
+        ok = len(sites) == 1
+        detail = "%d calls of `moments`" % len(sites)
+        if ok:
+            a0 = ds(b.call_arg_exprs(sites[0][0])[0])
+            ok = False
+            detail = "raw moments are taken of `%s`" % fmt(a0)[:100]
+            if isinstance(a0, tuple) and a0[0] == "call" and a0[1] in ("mapv", "map", "mapv_into") and len(a0[3]) == 2 and ds(a0[3][0])[:2] == ("param", 1):
+                cb, ups = closure_of(prog, a0[3][1])
+                if cb is not None:
+                    def upleaf(e):
+                        return ("sym", "^%d" % e[1])
+                    try:
+                        ret, _ = closure_terms(prog, cb, {2: ("sym", "x")}, upvar_leaf=upleaf)
+                    except Unrecognised as ex:
+                        ret = None
+                        detail = "shift closure not recognised: %s" % ex
+                    if ret is not None and ret[0] == "sub" and ret[1] == ("sym", "x") and ret[2][0] == "sym" and ret[2][1].startswith("^"):
+                        ui = int(ret[2][1][1:])
+                        uv = unwrap_try(ds(ups[ui])) if ui < len(ups) else None
+                        ok = isinstance(uv, tuple) and uv[0] == "call" and uv[1] == "mean" and ds(uv[3][0])[:2] == ("param", 1)
+                        detail = "moments(self.mapv(|x| x − self.mean()), order)" if ok else "the data are shifted by `%s`, not by self.mean()" % fmt(uv)[:80]
+                    elif ret is not None:
+                        detail = "the data are mapped with `%s`, not shifted by the mean" % show(ret)
+        ctx.ob(rule, "%s/data-shifted-by-mean" % name, ok, root.where(), detail, what="raw moments taken of un-centred data (cancellation)")
+
+
 # ======================================================================================= C01 interpolation layer
 
 def fn_term(prog, body, names, depth=0, pick_field=None, kernel_cls=None):
